@@ -6,13 +6,14 @@
    Premises left to the frame-codec work (Frame/*Proofs.v, the lead), stated in full in the
    theorems that use them:
      C05_recovers:      frame_roundtrip  = C01: a spec_valid frame marshals and decodes to its wire view;
-     C05_tamper_bytes:  reencode         = C08: canonical bytes that decode re-encode to themselves.
+     C05_tamper_bytes:  reencode         = C08: canonical bytes that decode re-encode to themselves
+                        (discharged in C05_tamper_received_bytes with Frame.CanonProofs.phy_canonical).
    Everything else (MAC command stream round trip, AES/CMAC byte ranges, involution of the
    encryption, invariance of the MIC under the wire view) is proved. *)
 From Coq Require Import List NArith ZArith Bool.
 From LW Require Import Base.Outcome Base.Bytes Crypto.AES Crypto.AESInv Crypto.CMAC Mac.Commands Mac.Spec Mac.Stream
      Mac.StreamProofs Mac.RegOkProofs
-     Frame.Model Frame.Spec Sec.MIC Sec.MICSpec Sec.MICProofs Sec.Encrypt Sec.EndToEnd Sec.EndToEndProofs
+     Frame.Model Frame.Spec Frame.CanonProofs Sec.MIC Sec.MICSpec Sec.MICProofs Sec.Encrypt Sec.EndToEnd Sec.EndToEndProofs
      Sec.Recover.
 From LWGen Require Import RegistryGen.
 Import ListNotations.
@@ -62,6 +63,21 @@ Theorem C05_tamper_bytes : forall canonical : list N -> Prop,
                                     (firstn (length bs - 4) bs))).
 Proof. exact tamper_bytes. Qed.
 Print Assumptions C05_tamper_bytes.
+
+(* premise discharged with Frame.CanonProofs.phy_canonical: every received byte string whose MHDR RFU
+   bits are zero *)
+Theorem C05_tamper_received_bytes : forall ver up k prm full bs b,
+  Forall (fun x => x < 256) bs -> Frame.CanonProofs.rfu_zero bs = true ->
+  rx_validate ver up k prm full bs = Ok b ->
+  exists p m,
+    phy_unmarshal bs = Ok p /\ pl p = PLMac m /\
+    (full mod 65536 = fcnt (hdr m) mod 65536 ->
+     length (devaddr (hdr m)) = 4%nat -> (length bs - 4 < 256)%nat ->
+     b = bytes_eqb (skipn (length bs - 4) bs)
+                   (spec_data_mic ver up k prm (ack (fc (hdr m))) (devaddr (hdr m)) full
+                                  (firstn (length bs - 4) bs))).
+Proof. exact tamper_received_bytes. Qed.
+Print Assumptions C05_tamper_received_bytes.
 
 (* known finding C05-2: for non-canonical bytes (an MHDR RFU bit set) the validation accepts a frame
    whose received bytes do not carry the specification MIC *)
